@@ -632,7 +632,7 @@ func parseDateParts(dateString string, isEndOfRange bool) Date {
 	}
 
 	day := Atoi(parts[dayPos])
-	month := time.Month(months[monthName])
+	month, monthIsKnown := months[monthName]
 	year := Atoi(parts[yearPos])
 
 	// Check the date is valid.
@@ -643,6 +643,15 @@ func parseDateParts(dateString string, isEndOfRange bool) Date {
 			IsEndOfRange: isEndOfRange,
 			Constraint:   DateConstraintFromString(parts[constraintPos]),
 			ParseError:   err,
+		}
+	}
+
+	// A word that is not a month name (like "Foo 1900") is not a date.
+	if monthName != "" && !monthIsKnown {
+		return Date{
+			IsEndOfRange: isEndOfRange,
+			Constraint:   DateConstraintFromString(parts[constraintPos]),
+			ParseError:   fmt.Errorf("the month is unknown: %s", monthName),
 		}
 	}
 
